@@ -291,8 +291,14 @@ def gen_tail(rng, mp, sc, g, v, n):
         # a fault plan on a permission-changing request (never before the topic is loaded, never on a publish)
         if k in FAULTABLE and sc.ops and not g.clogged:
             pf = 0.45 if kind in ("regrant", "rewant") else 0.22
+            ks = [1, 1, 1, 1, 2, 2, 3]
+            if k in ("att", "attm"):
+                au = int(args[1]) or sc.sessions[int(args[0])][0]
+                if au not in v.users:
+                    # a new subscriber / a channel reader's first connection: SubscriptionGet, then TopicShare
+                    pf, ks = 0.45, [1, 2, 2, 2, 3]
             if rng.random() < pf:
-                k = "%s!%d" % (k, rng.choice([1, 1, 1, 1, 2, 2, 3]))
+                k = "%s!%d" % (k, rng.choice(ks))
         v2 = mp.op(k, args)
         if v2.oos:
             continue
@@ -325,6 +331,12 @@ def gen_scn(rng, mp, sid, nops=(8, 24)):
             o = B.gen_op(rng, sc, g, v, "att", force=s)
             if o is None:
                 continue
+            if sc.ops:
+                # a fault plan on the attach itself: aimed at new subscribers (SubscriptionGet, TopicShare)
+                au = int(o[1][1]) or sc.sessions[s][0]
+                pf, ks = (0.3, [1, 2, 2, 2, 3]) if au not in v.users else (0.06, [1, 1, 2])
+                if rng.random() < pf:
+                    o = ("att!%d" % rng.choice(ks), o[1])
             v2 = mp.op(*o)
             if v2.oos:
                 continue
@@ -611,7 +623,7 @@ def run_part(ctx, replay=None):
         scns = [XScn.from_replay(replay, "replay")]
     else:
         scns = [mk(*c, sid="xc%d" % i) for i, c in enumerate(CORPUS)]
-        scns += gen_scenarios(ctx, 130 if quick else 3000)
+        scns += gen_scenarios(ctx, 200 if quick else 3000)
     t0 = time.time()
     rc, impl, log = run_impl(ctx, scns)
     t_impl = time.time() - t0
